@@ -39,6 +39,9 @@ Sys gen_system(Chooser& ch, int mode) {
   Sys s;
   bool small = mode == 0;
   int kind = (int)ch.draw(0, 3);  // 0 dense random, 1 sparse banded, 2 badly scaled, 3 degenerate/tied (constructed)
+  // small systems with real-valued (roughly normal) entries instead of small half-integers: the pivoting solvers
+  // take longer, less regular paths on them
+  bool gaussian = small && gen_version() >= 2 && kind == 0 && ch.coin(1, 2);
   s.n = small ? 1 + (int)ch.draw(0, 9) : (mode == 1 ? 20 + (int)ch.draw(0, 180) : 40 + (int)ch.draw(0, 260));
   int n = s.n;
   s.mrows = n + (int)ch.draw(0, mode == 2 ? n / 2 : 4);
@@ -50,6 +53,7 @@ Sys gen_system(Chooser& ch, int mode) {
   } else
   for (int i = 0; i < s.mrows; i++) for (int j = 0; j < n; j++) {
     if (banded && std::abs(i - j) > 2) continue;
+    if (gaussian) { s.M[(size_t)i * n + j] = ((double)ch.draw(0, 4095) + (double)ch.draw(0, 4095) + (double)ch.draw(0, 4095) - 6142.5) / 1182.0; continue; }
     if (!banded && ch.coin(1, 4)) continue;
     s.M[(size_t)i * n + j] = (double)ch.range(-4, 4) / 2.0;
   }
@@ -87,9 +91,9 @@ Sys gen_system(Chooser& ch, int mode) {
     for (int i = 0; i < n; i++) { LD a = 0; for (int j = 0; j < n; j++) a += (LD)s.A[(size_t)i * n + j] * s.x0[j]; s.b[i] = (double)(a - (LD)g0[i]); }   // gradient A x0 - b = g0
     s.cls = small ? "degenerate_constructed" : (mode == 1 ? "large_sparse_constructed" : "medium_dense_constructed");
   } else {
-    for (auto& v : s.b) v = (double)ch.range(-8, 8) / 2.0;
+    for (auto& v : s.b) v = gaussian ? ((double)ch.draw(0, 4095) + (double)ch.draw(0, 4095) - 4095.0) / 512.0 : (double)ch.range(-8, 8) / 2.0;
     if (kind == 2) for (int i = 0; i < n; i++) s.b[i] *= sc[i];
-    s.cls = kind == 0 ? "random" : kind == 1 ? "banded" : "badly_scaled";
+    s.cls = kind == 0 ? (gaussian ? "random_real_valued" : "random") : kind == 1 ? "banded" : "badly_scaled";
   }
   // least-squares right-hand side y with M'y = b (minimum-norm y through the identity rows)
   s.yls.assign(mr, 0.0);
@@ -142,6 +146,7 @@ std::vector<double> run_solver(int which, const Sys& s, cholmod_common* c) {
   return out;
 }
 
+static bool g_skip_enumeration = false;
 static const char* kSolverNames[] = {"block3", "block", "block_updown", "lawson_hanson_normal", "lawson_hanson_lsq"};
 
 CaseResult body(Chooser& ch, Stats* st, int mode) {
@@ -159,6 +164,7 @@ CaseResult body(Chooser& ch, Stats* st, int mode) {
   // reference optimum
   std::vector<LD> xstar;
   if (s.constructed) xstar.assign(s.x0.begin(), s.x0.end());
+  else if (g_skip_enumeration) xstar.clear();   // fuzz twin: the KKT conditions alone decide (they characterise the optimum)
   else if (!enumerate_optimum(s, xstar)) { r.discard = true; return r; }
   // the tolerance is tied to the conditioning; systems beyond cond 1e8 are outside the domain (counted)
   LD cond = 1;
@@ -181,7 +187,12 @@ CaseResult body(Chooser& ch, Stats* st, int mode) {
   cholmod_l_finish(&c);
   // Known findings C11-*-iteration-cap: the block solvers can cycle and stop at their iteration limit with a
   // non-optimal (block/block_updown: even infeasible) vector.  Such solves are excluded and counted.
-  if (photospline_verif_nnls_cap_hit && exclude_known()) {
+  // The listed findings: block3 and block_updown exhaust their iteration limits on systems of any kind (block_updown
+  // also on a non-degenerate 6x6 badly scaled one, found by the value-profile fuzz twin), the plain block solver on
+  // DEGENERATE systems (constructed optima with exactly-zero and tied components).  The plain block solver
+  // exhausting its limit on a non-degenerate system is not among them and is reported.
+  bool known_class = which == 0 || which == 2 || (which == 1 && s.constructed);
+  if (photospline_verif_nnls_cap_hit && known_class && exclude_known()) {
     if (st) { st->excluded_known++; st->label(std::string("known:iteration_cap_exhausted:") + kSolverNames[which]); }
     return r;
   }
@@ -203,7 +214,7 @@ CaseResult body(Chooser& ch, Stats* st, int mode) {
     g -= s.b[i]; m += fabs(s.b[i]);
     // the stated tolerances are absolute thresholds on the gradient (and on x for the block solvers);
     // an x error of tol_x moves the gradient by up to |A|*tol_x
-    LD tol_g = 4 * stated + 4 * (LD)tol_x * amax * n + 64 * n * DBL_EPSILON * (mmax + mnorm * ynorm * s.mrows) * (1 + cond * 1e-6L);
+    LD tol_g = 4 * stated + 4 * (LD)tol_x * amax * n + 64 * n * DBL_EPSILON * (mmax + mnorm * ynorm * s.mrows) * (1 + cond * 1e-3L);  // a solve on an ill-conditioned free set is only forward-accurate to cond*eps (found by the value-profile fuzz twin: Lawson-Hanson, cond 3e6, gradient 2e-12 of |A||x|)
     (void)m;
     if (x[i] > tol_x) { npos++; if (fabsl(g) > tol_g) { bad = true; why = "gradient " + jnum((double)g) + " on positive component " + std::to_string(i) + " (x=" + jnum(x[i]) + ") exceeds " + jnum((double)tol_g); } }
     else { nzero++; if (g < -tol_g) { bad = true; why = "negative gradient " + jnum((double)g) + " on zero component " + std::to_string(i) + " exceeds " + jnum((double)tol_g); } }
@@ -215,18 +226,18 @@ CaseResult body(Chooser& ch, Stats* st, int mode) {
     if (have_cond && cholesky_ld(A, n, L)) { LD cond = cond_estimate(A, L, n); LD lmax = 0; for (int i = 0; i < n; i++) { LD rs = 0; for (int j = 0; j < n; j++) rs += fabsl(A[(size_t)i * n + j]); lmax = std::max(lmax, rs); } lmin = lmax / cond; }
     LD xn = 0; for (LD v : xstar) xn = std::max(xn, fabsl(v));
     LD bn = 0; for (double v : s.b) bn = std::max<LD>(bn, fabs(v));
-    if (have_cond) {
+    if (have_cond && !xstar.empty()) {
       LD dist_tol = 16 * n * (4 * stated + 4 * (LD)tol_x * amax * n + 64 * n * DBL_EPSILON * (amax * xn * n + bn)) / lmin + (LD)tol_x + 1e-12L * xn;
       for (int i = 0; i < n; i++) if (fabsl((LD)x[i] - xstar[i]) > dist_tol) { bad = true; why = "component " + std::to_string(i) + " = " + jnum(x[i]) + " differs from the constrained minimiser " + jnum((double)xstar[i]) + " by more than " + jnum((double)dist_tol); break; }
     }
   }
   if (st) {
     st->label(std::string("solver:") + kSolverNames[which]); st->label("class:" + s.cls); if (!s.cls_extra.empty()) st->label(s.cls_extra);
-    int sp = 0, sz = 0; for (LD v : xstar) { if (v > 0) sp++; else sz++; }
+    int sp = 0, sz = 0; if (xstar.empty()) { sp = npos; sz = nzero; } else for (LD v : xstar) { if (v > 0) sp++; else sz++; }
     if (sp > 0 && sz > 0) { Hasher h; h.add(which); for (double v : s.A) h.addd(v); for (double v : s.b) h.addd(v); st->nontriv(h.h); st->label("active_set:mixed"); }
     st->sample(r.json);
   }
-  if (bad) r.fail = std::string(kSolverNames[which]) + " (n=" + std::to_string(n) + ", " + s.cls + "): " + why;
+  if (bad) r.fail = std::string(kSolverNames[which]) + " (n=" + std::to_string(n) + ", " + s.cls + (photospline_verif_nnls_cap_hit ? ", iteration limit exhausted" : "") + "): " + why;
   return r;
 }
 
@@ -236,9 +247,18 @@ CaseResult body_dense(Chooser& ch, Stats* st) { return body(ch, st, 2); }
 
 }  // namespace
 
+#ifdef VF_FUZZ
+#include "common/vf_fuzz.hpp"
+// coverage-guided twin over the small (enumerable) systems: with libFuzzer's value profile the iteration counters'
+// comparisons become features, which steers the search towards inputs on which a solver runs long - the place where
+// cycling and iteration-limit exhaustion live
+CaseResult body_small_fuzz(Chooser& ch, Stats* st) { g_skip_enumeration = true; return body(ch, st, 0); }
+VF_FUZZ_TARGET("C11", "kkt_small_fuzz", body_small_fuzz, nullptr)
+#else
 int main(int argc, char** argv) {
   Options o = parse_options(argc, argv);
   Prop a{"kkt_small", body_small, 4.0, 1, 1536, 60}, b{"kkt_large_sparse", body_large, 1.0, 1, 4096, 120},
        d{"kkt_medium_dense", body_dense, 2.0, 1, 2048, 120};
   return run_main(o, "C11", {a, b, d});
 }
+#endif
